@@ -346,6 +346,10 @@ func roundTrip(t rapid.TB, rec *vx.Case, where string, ctx sdk.Context, app *sim
 		switch {
 		case !ok:
 			if sig := knownAliasSig(k, aliases); sig != "" {
+				// recorded finding: counted when listed in known_findings.json, a violation otherwise
+				if len(res.lostKnown[sig]) == 0 {
+					vx.Violatef(t, rec, c44, sig, "%s: key %q of the %s store is not reproduced by InitGenesis(ExportGenesis())", where, k, m.store)
+				}
 				res.lostKnown[sig] = append(res.lostKnown[sig], k)
 				continue
 			}
@@ -642,13 +646,22 @@ var _ = json.Marshal
 // ---- deterministic re-demonstration of the recorded findings ---------------------------
 
 type c44Known struct {
-	Variant int `json:"variant"` // 0: alias state of an UNORDERED v1 channel, 1: v2 client pair with equal client ids
+	Variant int `json:"variant"` // which sub-case runs first (0: alias state of an UNORDERED v1 channel, 1: v2 client pair with equal client ids)
 }
 
 func runC44Known(outer *testing.T) func(t rapid.TB, c c44Known, rec *vx.Case) {
 	return func(t rapid.TB, c c44Known, rec *vx.Case) {
 		rec.NonTrivial()
-		switch c.Variant {
+		// both sub-cases run in every execution; Variant only picks which one goes first
+		for _, v := range []int{c.Variant % 2, 1 - c.Variant%2} {
+			runC44KnownVariant(outer, t, v, rec)
+		}
+	}
+}
+
+func runC44KnownVariant(outer *testing.T, t rapid.TB, variant int, rec *vx.Case) {
+	{
+		switch variant {
 		case 0:
 			rec.Class("known:alias-state")
 			h := pktsim.History{Links: []int{int(sim.V1Unordered), int(sim.V2Alias)}}
@@ -695,7 +708,7 @@ func runC44Known(outer *testing.T) func(t rapid.TB, c c44Known, rec *vx.Case) {
 				if ks := lost[sig]; len(ks) > 0 {
 					vx.Violatef(t, rec, c44, sig, "wipe + ibc.InitGenesis(ibc.ExportGenesis()) does not reproduce %d key(s) of the IBC store, e.g. %v; %s", len(ks), ks[:min(3, len(ks))], consequence)
 				} else {
-					rec.Class("known:not-reproduced:" + sig)
+					rec.Class("known:not-reproduced:%s", sig)
 				}
 			}
 		case 1:
@@ -714,7 +727,7 @@ func runC44Known(outer *testing.T) func(t rapid.TB, c c44Known, rec *vx.Case) {
 func TestC44Known(t *testing.T) {
 	vx.Check(t, vx.Prop[c44Known]{
 		ID:   c44,
-		Rule: "deterministic re-demonstration of the recorded C44 findings (variant 0: alias state of an UNORDERED channel with v2-over-alias packets; variant 1: v2 client pair with equal client ids); always non-trivial",
+		Rule: "deterministic re-demonstration of the recorded C44 findings (alias state of an UNORDERED channel with v2-over-alias packets, and a v2 client pair with equal client ids; both run in every execution); always non-trivial",
 		Gen: func(t *rapid.T) c44Known {
 			return c44Known{Variant: rapid.IntRange(0, 1).Draw(t, "variant")}
 		},
